@@ -102,6 +102,7 @@ type Gen struct {
 	freshTerms map[string]bool // terms denoting references / slices allocated by this function
 	dirty      map[string]bool // heap arrays written at an index that is not known to be fresh
 	clean      map[string]bool // from a previous pass: arrays that are never dirty (frame holds trivially)
+	classes    []*StrClass
 }
 
 // markFresh records that a reference or slice value denotes memory allocated by this function.
@@ -408,6 +409,9 @@ func (g *Gen) strLit(s string) string {
 		for i := 0; i < len(s); i++ {
 			g.assume(fmt.Sprintf("(= (sat %s %d) %d)", n, i, s[i]))
 		}
+	}
+	for _, sc := range g.classes {
+		g.classLiteral(sc, s, n)
 	}
 	// distinct from all other literals of the same length (others differ by length already)
 	for o, on := range g.strLits {
